@@ -155,12 +155,14 @@ def run(ck):
                         it = p.interp
                         nc = [c for c in p.calls if c[0].endswith("cplx.numpy")]
                         zat = p.value[1].term.single_atom()
-                        ok = False
+                        ok = None  # no model matrix recognised on its way out of torch: undecided
                         for c in nc:
                             a = c[7].get("x")
                             comps = T.as_stack0(a) if a is not None else None
                             if comps is not None and all(model_dep(x) for x in comps):
                                 ok = all(z_degree(x, zat) == -1 for x in comps)
+                                if not ok and any(n_.startswith(("ret(", "x:", "m:", "unk")) or "ret(" in n_ for x in comps for n_ in x.syms()):
+                                    ok = None  # a factor the analyser does not follow (a value handed back by an unmodelled call) may be Z
                         ck.check(ok, "C10.R2", inst + ":rho / Z once", f.site(), "the model density matrix entering the fidelity is not divided by Z exactly once")
     # ------------------------------------------------------------------ R3 pure-state fidelity = |<target|psi>|^2 / Z, by value
     # psi(space) and the normalisation are replaced by symbols (they are C01's matter): what is decided here is how the metric
@@ -224,7 +226,8 @@ def run(ck):
         given = env.get("psi")
         if given is not None and not (isinstance(given, VConst) and given.value is None):
             return given  # an explicit state is not what this rule is about
-        o = it.new_tobj("tensor", T.stack0(T.sym("rot[%s]r" % getattr(b, "tag", "?")), T.sym("rot[%s]i" % getattr(b, "tag", "?"))), (2, "N"), "fresh")
+        bt_ = getattr(b, "tag", None) or {"XZ": "basisA", "ZX": "basisB"}.get(getattr(b, "value", None), "?")
+        o = it.new_tobj("tensor", T.stack0(T.sym("rot[%s]r" % bt_), T.sym("rot[%s]i" % bt_)), (2, "N"), "fresh")
         o.fw = 64
         return VTens(o)
 
@@ -232,11 +235,9 @@ def run(ck):
     with ck.guard("C10.R3", inst, klf.site()):
         def thd(it):
             s = make_state(it, "ComplexWaveFunction")
-            b1, b2 = api.basis_str(it), api.basis_str(it)
-            b1.tag, b2.tag = "basisA", "basisB"
-            tgt = it.new_dict({})
-            tgt.obj.items[("sym", "basisA")] = api.cx_t(it, "tA", ("N",))
-            tgt.obj.items[("sym", "basisB")] = api.cx_t(it, "tB", ("N",))
+            # two different basis strings (their rotations are summarised: only which target meets which basis matters)
+            b1, b2 = VConst("XZ"), VConst("ZX")
+            tgt = it.new_dict({"XZ": api.cx_t(it, "tA", ("N",)), "ZX": api.cx_t(it, "tB", ("N",))})
             return it.call_function(VFunc(klf), [s, tgt], {"space": tens(it, "space", ("N", "nv")), "bases": it.new_list([b2, b1])}, None)
 
         for p in returning(paths_of(prog, thd, sticky=True, max_paths=30, stubs={rp.qualname: _stub_rot}), inst):
